@@ -119,11 +119,34 @@ def t16_comp(run, fx):
     for bi, t in rec:
         names = set()
         for a in t["args"]:
-            for x in sym.walk(cprov.op(a)):
-                if x[0] == "arg" and x[2]:
-                    names.add(x[2])
+            for _db, v0 in sym.alternatives(c, cprov, cprov.op(a)):
+                for x in sym.walk(v0):
+                    if x[0] == "arg" and x[2]:
+                        names.add(x[2])
         extra = names - passive
+        # the composition is T_outer after T_inner: the argument is `inherited * component`, the inherited transform on the left of a
+        # Transform2F product whose right factor does not depend on it (translate()/scale() on the inherited transform apply on the other side)
+        MULTT = "<pathfinder_geometry::transform2d::Transform2F as std::ops::Mul>::mul"
+        order_ok = True
+        shape = None
         if extra:
+            targ = None
+            for a in t["args"]:
+                if "Transform2F" in (c.local_ty(a["p"]["l"]) if a["k"] in ("copy", "move") else ""):
+                    targ = a
+            if targ is not None:
+                for db, v in sym.alternatives(c, cprov, cprov.op(targ)):
+                    v = sym.strip(v)
+                    left_ok = v[0] == "call" and (v[1] or "").startswith("<pathfinder_geometry::transform2d::Transform2F as std::ops::Mul") and len(v[2]) == 2 \
+                        and any(x[0] == "arg" and x[2] in extra for x in sym.walk(v[2][0])) \
+                        and not any(x[0] == "arg" and x[2] in extra for x in sym.walk(v[2][1]))
+                    if not left_ok:
+                        order_ok = False
+                        shape = sym.show(v)[:80]
+        if extra and not order_ok:
+            run.fail(rule, "nested-transform:order", "visit_composite_glyph_outline hands down %s, which is not `inherited * component transform`: the component's "
+                     "placement is applied on the wrong side of the enclosing transform (offsets are no longer scaled by an enclosing scale)" % shape, c.loc(t))
+        elif extra:
             run.ok(rule, "visit_composite_glyph_outline composes the inherited %s with each component's transform" % sorted(extra))
         else:
             run.fail(rule, "nested-transform:compose", "visit_composite_glyph_outline calls visit_outline with the component's own offset and scale only: nothing inherited "
@@ -135,6 +158,11 @@ def _leaf_call_block(term, suffix):
         if x[0] == "call" and suffix in (x[1] or ""):
             return x[3]
     return None
+
+
+def floors_like(fx):
+    """the superset configuration of the real crate (the planted fixture has no XY arm)"""
+    return fx.body("tables::glyf::CompositeGlyphFlag::we_have_an_x_and_y_scale") is not None
 
 
 def t16_mat(run, fx):
@@ -186,6 +214,30 @@ def t16_mat(run, fx):
                     ij = (inner[2][1], x[2][1])
                     break
         got.append(item.get(ij))
+    # WE_HAVE_AN_X_AND_Y_SCALE: xscale is read first and scales x, yscale second and scales y
+    xy_pos = {}
+    for bi2 in range(len(rd.blocks)):
+        for st in rd.stmts(bi2):
+            rv = st.get("rv") or {}
+            if st.get("k") == "assign" and rv.get("k") == "agg" and rv.get("adt") == "tables::glyf::CompositeGlyphScale" and rv.get("vname") == "XY":
+                for fname, fop in zip(rv["fnames"], rv["fields"]):
+                    xy_pos[fname] = _leaf_call_block(prov.op(fop), "ReadCtxt::<'a>::read")
+    vec_calls = [(bi2, t2) for bi2, t2 in b.calls() if (t2["callee"].get("path") or "").endswith("Vector2F::new") and len(t2["args"]) == 2]
+    if set(xy_pos) == {"x_scale", "y_scale"} and None not in xy_pos.values() and vec_calls:
+        first = "x_scale" if rd.dominates(xy_pos["x_scale"], xy_pos["y_scale"]) else "y_scale"
+        bi2, t2 = vec_calls[0]
+
+        def scale_field(op):
+            fs = [x[2] for x in sym.walk(cprov.op(op)) if x[0] == "field" and x[2] in ("x_scale", "y_scale")]
+            return fs[0] if fs else None
+        got_xy = [scale_field(a) for a in t2["args"]]
+        if first == "x_scale" and got_xy == ["x_scale", "y_scale"]:
+            run.ok(rule, "XY scale: the value read first scales x, the second scales y")
+        else:
+            run.fail(rule, "xy-scale", "WE_HAVE_AN_X_AND_Y_SCALE: the reader stores the first value as %s and the conversion builds the scale vector (x, y) from %s: "
+                     "x and y scale are swapped" % (first, got_xy), b.loc(t2))
+    elif floors_like(fx):
+        run.anchor_missing(rule, "CompositeGlyphScale::XY in the reader and Vector2F::new(x_scale, y_scale) in the conversion")
     want = [0, 2, 1, 3]
     names = ["xscale", "scale01", "scale10", "yscale"]
     if got == want:
@@ -367,6 +419,40 @@ def t16_sub(run, fx):
                                  "exactly once: %s" % (m, sym.show(term)[:90]), b.loc(t))
 
 
+def t16_pair(run, fx):
+    rule = "T16-PAIR"
+    run.rule(rule, "a glyph taken out of a borrowed glyf table is put back on every exit: in a function that reaches the table through a reference "
+                   "parameter, every path from GlyfTable::take to a return (the error exits of `?` included) passes GlyfTable::replace - otherwise a failed "
+                   "visit leaves an empty glyph behind and later outlines of the same font object differ (a table the function owns and drops on error "
+                   "is exempt)")
+    n = 0
+    for b in fx.bodies:
+        takes = [(bi, t) for bi, t in b.calls() if (t["callee"].get("path") or "").endswith("glyf::GlyfTable::<'a>::take")]
+        if not takes:
+            continue
+        prov = sym.Prov(b)
+        reps = frozenset(bi for bi, t in b.calls() if (t["callee"].get("path") or "").endswith("glyf::GlyfTable::<'a>::replace"))
+        for bi, t in takes:
+            recv = sym.strip(prov.op(t["args"][0]))
+            roots = [x for x in sym.walk(recv) if x[0] == "arg"]
+            borrowed = any((b.local_ty(x[1]) or "").startswith("&") for x in roots)
+            if not borrowed:
+                run.ok(rule, "%s: takes from a table it owns" % b.path)
+                continue
+            n += 1
+            # from where the take is known to have handed out a glyph (take returns None for an index out of range: nothing to put back)
+            import guards
+            starts = guards.success_blocks(b, t["dest"]["l"]) if not t["dest"]["p"] else []
+            if not starts and t.get("target") is not None:
+                starts = [t["target"]]
+            leak = any(r in b.reach_from(s0, avoid=reps) for s0 in starts for r in b.return_blocks())
+            if leak:
+                run.fail(rule, "take-without-replace:%s" % b.root, "%s takes a glyph out of a table it only borrows and can return without putting it back" % b.path, b.loc(t))
+            else:
+                run.ok(rule, "%s: every exit after take passes replace" % b.path)
+    run.ok(rule, "%d take site(s) on borrowed tables examined" % n)
+
+
 def check(run, fx, tier, floors=True):
     recursion.run_rule(run, fx, "C01-a", lambda f: any("tables::glyf::outline" in p for p in f.local_paths), floors_n=1 if floors else None)
     rules_C01.rule_panics(run, fx, "C01-b", lambda b: b.file in FILES, floors, floor_n=5)
@@ -380,5 +466,6 @@ def check(run, fx, tier, floors=True):
         t16_comp(run, fx)
         t16_origin(run, fx)
         t16_sub(run, fx)
+    t16_pair(run, fx)
     indexing.rule_index(run, fx, "C16-i", floors, select=lambda b: b.file in FILES, floor_n=10)
     overflow.rule_overflow(run, fx, "C16-o", floors, select=lambda b: b.file in FILES, floor_n=10)
